@@ -588,7 +588,7 @@ func replayC23(env *mc.Env, raw json.RawMessage) (bool, string) {
 func init() {
 	mc.Register(&mc.Check{
 		ID: "C23",
-		Rule: "breadth-first search over all transaction histories up to depth 3 (quick) / 4 (thorough) from a fresh ledger, both engines; alphabet = save / overwrite / move / copy / destroy of small and large nested resources and structs in 3 slots of 2 accounts, and ~35 mutations through references (remove, insert, replace, drain, refill, move nested resource out/in/across accounts, nest a stored collection into another); every transition is its own transaction on a fresh runtime over a cloned ledger; states deduplicated by canonical decoded dump + slab count; rtx.Health (independent of Storage.CheckHealth) runs after every committed transaction. Non-trivial = distinct history whose resulting ledger has child slabs (more slab registers than account roots).",
+		Rule: "breadth-first search over all transaction histories up to depth 3 (quick) / 4 (thorough) from a fresh ledger, both engines; alphabet = save / overwrite / move / copy / destroy of small and large nested resources and structs in 3 slots of 2 accounts, and ~70 mutations through references (remove, insert, replace, drain, refill, index assignment / overwrite / nil / swap on optional-element arrays, optional-valued dictionaries and optional fields, move nested resource out/in/across accounts, nest a stored collection into another); every transition is its own transaction on a fresh runtime over a cloned ledger; states deduplicated by canonical decoded dump + slab count; rtx.Health (independent of Storage.CheckHealth) runs after every committed transaction. Non-trivial = distinct history whose resulting ledger has child slabs (more slab registers than account roots).",
 		Assumptions: []string{
 			"atree.CheckStorageHealth is the trusted structural checker; rtx adds root-set equality with the account root registers and a full decode walk",
 			"the oracle's own detection ability is re-established on every run (every single-register deletion of a populated ledger must be flagged)",
